@@ -9,14 +9,14 @@ use deserr::{deserialize, Deserr};
 
 pub type R = Rec<M_LOG>;
 
-const STRS: [&str; NSTR] = ["", "a", "\u{e9}", "\u{20ac}", "\u{1f600}", "ab"];
+const STRS: [&str; 6] = ["", "a", "\u{e9}", "\u{20ac}", "\u{1f600}", "ab"];
 
 #[cfg(kani)]
 fn setup() -> Node {
-    set_tab(STRS);
+    set_tab(&STRS);
     reset();
     set_script(any_script());
-    let n = any_leaf(NSTR as u8);
+    let n = any_leaf(6);
     set_node(0, n);
     n
 }
